@@ -326,7 +326,7 @@ fn probe_digest(probe: &RedeemNode) -> u64 {
     types::Context::with_context(|ctx| {
         use simplicity::node::CoreConstructible;
         let mut seen: std::collections::HashMap<String, usize> = std::collections::HashMap::new();
-        for _ in 0..400 {
+        for _ in 0..5000 {
             let node = Arc::<simplicity::ConstructNode>::iden(&ctx);
             let name = format!("{}", node.arrow().source);
             let next = seen.len();
@@ -388,7 +388,7 @@ fn run_concurrent(b: &Batch) -> Result<Vec<u64>, String> {
     let alone = probe_digest(&probe);
     for (t, p) in probes.iter().enumerate() {
         if *p != alone {
-            return Err(format!("thread {} of {}: taking 400 fresh variable names in an own context and calling jet_verify right after the common start gives another result than the same steps run alone (names not unique within the context, or the jet call failed)", t, n_threads));
+            return Err(format!("thread {} of {}: taking 5000 fresh variable names in an own context and calling jet_verify right after the common start gives another result than the same steps run alone (names not unique within the context, or the jet call failed)", t, n_threads));
         }
     }
     Ok(concurrent)
